@@ -38,6 +38,10 @@ def run(R):
         r5(R, m, methods)
     if R.want("C17.R6"):
         r6(R, m, methods)
+    if R.want("C17.R7"):
+        r7(R, m, methods)
+    if R.want("C17.R8"):
+        r8(R, m, methods)
 
 
 # --------------------------------------------------------------------------------------------------
@@ -442,3 +446,105 @@ def r6(R, m, methods):
         R.check(fresh_ok, "C17.R6", REL, a.lineno, "columnfile.get_bigarray", "adopt cache: %s" % src(a),
                 "a stale 2-D copy of the columns can become the storage again after filter/addcolumn/attribute assignment "
                 "changed the columns: " + why)
+
+
+# --------------------------------------------------------------------------------------------------
+def r7(R, m, methods):
+    """'the attribute, item and getcolumn views of a column are the same data': item and getcolumn read self.__data[i]; the attribute
+    is whatever __setattr__ binds.  For a key that is a column title the object bound must be the stored column itself - not the
+    value that was assigned (a scalar stays a scalar attribute and chkarray() later writes it into the storage; an array assigned
+    while the storage is the 2-D bigarray is copied into the row and the attribute keeps pointing at the caller's array)."""
+    R.rule("C17.R7", "columnfile.__setattr__: for a column title the attribute is bound to the stored column self.__data[index] (after the "
+                     "broadcast / the store), not to the assigned value")
+    fn = methods.get("__setattr__")
+    if fn is None:
+        R.fail("columnfile.__setattr__ vanished")
+    key, val = fn.args.args[1].arg, fn.args.args[2].arg
+    cfg = pyfacts.PyCFG(fn)
+    sup = [c for c in ast.walk(fn) if isinstance(c, ast.Call) and isinstance(c.func, ast.Attribute) and c.func.attr == "__setattr__" and len(c.args) == 2
+           and src(c.args[0]) == key]
+    sup += [c for c in ast.walk(fn) if isinstance(c, ast.Call) and src(c.func) == "object.__setattr__" and len(c.args) == 3 and src(c.args[1]) == key]
+    R.shape(bool(sup), "C17.R7", REL, "columnfile.__setattr__", "the call that binds the attribute (super().__setattr__(key, value))")
+    n = 0
+    for c in sup:
+        node = cfg.node_of(pyfacts.containing_stmt(c))
+        gs = [(src(t).replace(" ", ""), pol) for t, pol in cfg.guards(node)]
+        if ("%s=='titles'" % key, True) in gs or ('%s=="titles"' % key, True) in gs:
+            continue
+        arg = c.args[-1]
+        # on the path through 'key in self.titles' the value must have been re-read from the storage
+        vals = cfg.reaching(node, src(arg)) if isinstance(arg, ast.Name) else [(arg, [])]
+        for v, g in vals:
+            on_title_path = any(src(t).replace(" ", "") == "%sinself.titles" % key and pol for t, pol in g)
+            title_guard_seen = any(src(t).replace(" ", "") == "%sinself.titles" % key for t, pol in g + cfg.guards(node))
+            if v is None:
+                # the parameter itself reaches the binding: acceptable only on the path where key is not a title
+                not_title = any(src(t).replace(" ", "") == "%sinself.titles" % key and not pol for t, pol in g + cfg.guards(node))
+                n += 1
+                R.check(not_title, "C17.R7", REL, c.lineno, "columnfile.__setattr__", "%s binds the assigned value only when %s is not a column title" % (src(c)[:50], key),
+                        "for a column title the attribute is bound to the assigned value itself: 'c.x = 3.0' leaves a float attribute next to the "
+                        "array column (chkarray() then writes the float into the storage and filter() / copy() fail), and an array assigned while "
+                        "the storage is the 2-D bigarray is copied into the row while the attribute keeps the caller's array (c.x[0] = 99 is "
+                        "not seen by c['x'])")
+            elif isinstance(v, ast.Subscript) and is_self_data(v.value):
+                n += 1
+                R.inst("C17.R7", "%s:columnfile.__setattr__ attribute bound to %s" % (REL, src(v)))
+            elif v == "unknown":
+                R.shape(False, "C17.R7", REL, "columnfile.__setattr__", "the value bound to the attribute")
+            else:
+                n += 1
+                R.check(False, "C17.R7", REL, c.lineno, "columnfile.__setattr__", "attribute bound to %s" % src(v)[:50],
+                        "for a column title the attribute is bound to something else than the stored column")
+    R.shape(n >= 1, "C17.R7", REL, "columnfile.__setattr__", "a binding of the attribute on the column-title path")
+
+
+def r8(R, m, methods):
+    """get_bigarray() turns the column storage into a 2-D ndarray (self.__data = np.asarray(...)).  A method that then uses list
+    operations on it (append / insert / extend / pop) raises AttributeError half way through - addcolumn has already extended
+    titles and ncols at that point, so the object is left with a title that has no column."""
+    R.rule("C17.R8", "list operations on the column storage (self.__data.append / insert / extend / pop) run only where the storage is "
+                     "known to be a list (re-made with list(...) / [...] in the same method, or under an isinstance test), since "
+                     "get_bigarray() makes it an ndarray")
+    nd = []
+    for name, fn in methods.items():
+        for a in ast.walk(fn):
+            if isinstance(a, ast.Assign) and any(is_self_data(t) for t in a.targets):
+                v = pyfacts.resolved(fn, a.value, 3, keep=("self",))
+                t = src(v)
+                if ("np.asarray" in t or "np.array(" in t or "numpy.asarray" in t) or src(a.value) == "self.__bigarray":
+                    nd.append((name, a))
+    n = 0
+    for name, fn in methods.items():
+        cfg = None
+        for c in ast.walk(fn):
+            if isinstance(c, ast.Call) and isinstance(c.func, ast.Attribute) and c.func.attr in ("append", "insert", "extend", "pop") and is_self_data(c.func.value):
+                n += 1
+                cfg = cfg or pyfacts.PyCFG(fn)
+                node = cfg.node_of(pyfacts.containing_stmt(c))
+                safe = False
+                for st in cfg.stmts_dominating(node):
+                    s_ = st.node
+                    if isinstance(s_, ast.Assign) and any(is_self_data(t) for t in s_.targets):
+                        v = s_.value
+                        if isinstance(v, (ast.List, ast.ListComp)) or (isinstance(v, ast.Call) and src(v.func) == "list"):
+                            safe = True
+                for t, pol in cfg.guards(node):
+                    if pol and "isinstance(self.__data,list)" in src(t).replace(" ", ""):
+                        safe = True
+                # 'if not isinstance(self.__data, list): self.__data = list(self.__data)' earlier in the same block: a list on both paths
+                st0 = pyfacts.containing_stmt(c)
+                par = getattr(st0, "_parent", None)
+                for f_ in ("body", "orelse", "finalbody"):
+                    blk = getattr(par, f_, None)
+                    if isinstance(blk, list) and st0 in blk:
+                        for prev in blk[:blk.index(st0)]:
+                            if isinstance(prev, ast.If) and src(prev.test).replace(" ", "") == "notisinstance(self.__data,list)" and any(
+                                    isinstance(a_, ast.Assign) and any(is_self_data(t) for t in a_.targets) and isinstance(a_.value, ast.Call)
+                                    and src(a_.value.func) == "list" for a_ in prev.body):
+                                safe = True
+                if name == "__init__":
+                    safe = True
+                R.check(safe or not nd, "C17.R8", REL, c.lineno, "columnfile.%s" % name, "%s on list storage" % src(c)[:50],
+                        "after a read of .bigarray the storage is an ndarray (columnfile.%s: %s) and this call raises AttributeError - in addcolumn "
+                        "after titles and ncols were already extended, leaving a title without a column" % (nd[0][0], src(nd[0][1])[:50]) if nd else "")
+    R.shape(n >= 1, "C17.R8", REL, "columnfile", "a list operation on self.__data")
